@@ -15,8 +15,10 @@ import Ajson.Proofs.Frame
 import Ajson.Proofs.History
 import Ajson.Proofs.Sides
 import Ajson.Proofs.CloneSound
+import Ajson.Proofs.Steps
 import Ajson.Proofs.Refine
 import Ajson.Proofs.RefineDelete
+import Ajson.Proofs.AppendMany
 import Ajson.Model.Decode
 
 namespace Ajson.Props.C05
@@ -104,6 +106,15 @@ example :
              ((r.1.childMap b).length == 1) && ((r.1.childMap root).length == 2)
          | _ => false
        | _ => false) = true := by decide +kernel
+
+/-- **AppendArray(values...) with several arguments**, for fresh or detached, pairwise different nodes (none of them the receiver or
+above it — the usual call `arr.AppendArray(NumericNode(…), StringNode(…), …)`): accepted, sound and acyclic afterwards. The receiver is
+marked only after the last element; between the elements the heap satisfies the relaxed invariant (`StructBut`: a clean receiver with
+new children), which the single step for a detached node accepts as its input as well (`Proofs/AppendMany`). -/
+theorem C05_append_array_many {h : Heap} (hs : Struct h) (ha : Acyc h) (n : Nat) (hn : n < h.size) (harr : (h.get n).type = .array)
+    (vs : List Id) (hnd : vs.Nodup) (hvs : ∀ v ∈ vs, (v : Nat) < h.size ∧ (h.get v).parent = none ∧ ¬ Anc h v n) :
+    (h.appendArray n vs).2 = .ok () ∧ Struct (h.appendArray n vs).1 ∧ Acyc (h.appendArray n vs).1 ∧ (h.appendArray n vs).1.size = h.size :=
+  appendArray_many_detached hs ha n hn harr vs hnd hvs
 
 /-! ### the operations on plain data
 
@@ -261,7 +272,18 @@ theorem C05_set_array_set_object {h : Heap} (hs : Struct h) (ha : Acyc h) (n : N
     (Struct (h.update (some n) (.obj kv)).1 ∧ Acyc (h.update (some n) (.obj kv)).1 ∧ (h.update (some n) (.obj kv)).1.size = h.size) :=
   ⟨setArray_sound hs ha n hn ids hids, setObject_sound hs ha n hn kv hkv⟩
 
-/-- … and `Clone()`, SetArray and SetObject may be mixed in anywhere: any history of edit requests, clones and container
+/-- **SetNode keeps the heap sound and acyclic** (`Proofs/SetNode`): for any receiver and any value — a scalar or a container, parsed or
+constructed, clean or edited, detached or attached anywhere, in the receiver's document or in another one — the request is accepted
+unless the value is the receiver itself (nothing happens) or one of its ancestors (rejected, nothing changes), and the heap afterwards
+satisfies the invariant and has no cycles. The model follows the Go code step by step: clone the value, give the clone the receiver's
+links, detach the receiver's old children, copy the clone's record over the receiver, re-parent the adopted children to the receiver,
+mark the receiver's parent. (The proof describes the rewired heap node by node — `rewire_get` — and checks the invariant for the
+receiver, the emptied clone root, the adopted children, the detached children and everything else.) -/
+theorem C05_set_node {h : Heap} (hs : Struct h) (ha : Acyc h) (n value : Nat) (hn : n < h.size) (hv : value < h.size) :
+    Struct (h.setNode n value).1 ∧ Acyc (h.setNode n value).1 ∧ h.size ≤ (h.setNode n value).1.size :=
+  setNode_sound hs ha n value hn hv
+
+/-- … and `Clone()`, SetArray, SetObject and SetNode may be mixed in anywhere: any history of edit requests, clones and container
 assignments (`Step`), each addressed to any nodes that exist at that moment (the copies made earlier included), leaves a sound acyclic
 heap -/
 theorem C05_any_history_with_clones (ss : List Step) (h : Heap) (hs : Struct h) (ha : Acyc h) (hv : ValidSteps h ss) :
